@@ -2,8 +2,8 @@
     atomically (PARTIAL: the kernel honouring the contract written at the top
     of Base/FS.v is assumed).  Only statements here; proofs: Proofs/FS.v,
     Proofs/Writers.v. *)
-From Coq Require Import List NArith.
-From AGH Require Import Base.FS Proofs.FS.
+From Coq Require Import String List NArith.
+From AGH Require Import Base.FS Proofs.FS Model.Writers Gen.Writers Proofs.Writers.
 Import ListNotations.
 Local Open Scope N_scope.
 
@@ -72,6 +72,23 @@ Print Assumptions C14_no_leftovers.
 Theorem C14_f_cur_is_spec : forall f, f_cur f = f_cur_spec f.
 Proof. exact f_cur_spec_eq. Qed.
 Print Assumptions C14_f_cur_is_spec.
+
+(** Program level (covers write paths the traced runs do not reach): every
+    call in the anchored files that creates, writes, truncates, renames or
+    removes a file is a rename-based writer or a listed exception; the table
+    is regenerated from the source on every run. *)
+Theorem C14_writers_rename_based :
+  forall w, In w writers -> rename_based w = true \/ excepted w = true.
+Proof. exact writers_rename_based_or_excepted. Qed.
+Print Assumptions C14_writers_rename_based.
+
+Theorem C14_writers_sites_present : sites_present writers = true.
+Proof. exact expected_sites_present. Qed.
+Print Assumptions C14_writers_sites_present.
+
+Example C14_writer_judge_not_vacuous :
+  writer_ok (mkw "internal/dhcpd/db.go"%string "writeDB"%string "os.WriteFile"%string KWriteFile 189) = false.
+Proof. exact writer_ok_rejects_writefile. Qed.
 
 Example C14_atomic_shape_premises :
   let s := boot [(1, [10; 11; 12])] in
